@@ -207,6 +207,20 @@ impl WorkerPool {
         loop {
             if shutdown_flag.load(Ordering::Relaxed) {
                 tracing::debug!("TCP worker {worker_id} received shutdown signal");
+                // Graceful shutdown: process_parallel raises the flag right after dispatching
+                // the last packet, so whatever was accepted into the queue before that must
+                // still be analysed (dispatch() refuses new packets once the flag is set)
+                while let Ok(packet) = rx.try_recv() {
+                    if !Self::process_packet(
+                        &packet,
+                        &mut connection_tracker,
+                        matcher.as_ref(),
+                        &result_sender,
+                        filter_config.as_ref(),
+                    ) {
+                        return;
+                    }
+                }
                 break;
             }
 
@@ -214,12 +228,7 @@ impl WorkerPool {
             let first_packet = match rx.recv_timeout(timeout) {
                 Ok(packet) => packet,
                 Err(RecvTimeoutError::Timeout) => {
-                    if shutdown_flag.load(Ordering::Relaxed) {
-                        tracing::debug!(
-                            "TCP worker {worker_id} received shutdown signal during timeout"
-                        );
-                        break;
-                    }
+                    // The shutdown flag is examined (and the queue drained) at the top of the loop
                     continue;
                 }
                 Err(RecvTimeoutError::Disconnected) => {
